@@ -1,4 +1,5 @@
 import Femio.Props.C20
+import Femio.Props.C20Pipeline
 open Femio.C20
 #print axioms C20_check_polyhedron_spec
 #print axioms C20_checker_sound
@@ -16,3 +17,18 @@ open Femio.C20
 #print axioms C20_rows_cols_nonempty
 #print axioms C20_merge_closed_additive_nodup
 #print axioms C20_merge_closed_nodup
+open Femio.C20
+#print axioms C20_shrink_inv
+#print axioms C20_merge_step_inv
+#print axioms C20_remove_edge_inv
+#print axioms C20_remove_vertices_2_inv
+#print axioms C20_rv2_cell
+#print axioms C20_merge_vertex_inv
+#print axioms C20_reindex_inv
+#print axioms C20_pipeline_invariant
+#print axioms C20_pipeline_output
+#print axioms C20_pipeline_conv
+#print axioms C20_cellFlux_eq_polyFan6
+#print axioms C20_pipeline_flux
+#print axioms C20_pipeline_output_flux
+#print axioms C20_step_flux
